@@ -471,8 +471,10 @@ func CompileRegexp(re *syntax.Regexp, config Config) (*Engine, error) {
 		})
 		literals = extractor.ExtractPrefixes(re)
 
-		// Build prefilter from prefix literals
-		if literals != nil && !literals.IsEmpty() {
+		// Build prefilter from prefix literals.
+		// A partial-coverage set (overflow dropped branches) proves nothing on
+		// a miss, so it can neither gate a search nor drive skip-ahead.
+		if literals != nil && !literals.IsEmpty() && !literals.IsPartialCoverage() {
 			builder := prefilter.NewBuilder(literals, nil)
 			pf = builder.Build()
 		}
